@@ -117,6 +117,21 @@ Theorem loaded_16bit_sample_block_covers_every_kernel_read : forall skip flags s
 Proof. exact loaded_16bit_sample_covers_every_kernel. Qed.
 Print Assumptions loaded_16bit_sample_block_covers_every_kernel_read.
 
+(* non-vacuity of the three theorems above: an 8-byte sample, spline kernel, step 1.5: the seven fetches at frames 0 1 3 4 6 7 9 (the
+   last one frame past the end) succeed on the loaded block; an eighth (frame 10) leaves it *)
+Example c20_block_and_kernel_nonvacuous :
+  let c := {| k_interp := Spline; k_wide := false; k_sin := false; k_sout := false; k_filter := false |} in
+  let a := {| a_vl := 1; a_vr := 1; a_step := 98304; a_dl := 0; a_dr := 0; a_a0 := 0; a_b0 := 0; a_b1 := 0 |} in
+  let st := {| s_pos := 0; s_frac := 0; s_ovl := 0; s_ovr := 0; s_l1 := 0; s_l2 := 0; s_r1 := 0; s_r2 := 0 |} in
+  match load_sample false 0 {| SampleLoad.s_len := 8; s_lps := 0; s_lpe := 0; s_flg := 0 |} [10; 20; 30; 40; 50; 60; 70; 80] 0 [] with
+  | Loaded s' blk _ =>
+      blk = [10; 10; 10; 10; 10; 20; 30; 40; 50; 60; 70; 80; 80; 80; 80; 80] /\
+      kernel c {| m_data := blk; m_base := 4 |} a 7 7 st (repeat 0 7) = Some ([2560; 6400; 10240; 14080; 17920; 20640; 20480], (0, 0, 0, 0)) /\
+      pos_at c a st 6 = 9 /\ kernel c {| m_data := blk; m_base := 4 |} a 8 8 st (repeat 0 8) = None
+  | _ => False
+  end.
+Proof. vm_compute. repeat split; reflexivity. Qed.
+
 (* non-vacuity: a truncated 16-bit planar-stereo delta big-endian sample with an inverted loop;
    a truncated ADPCM sample; both really produce Loaded blocks *)
 Example c20_nonvacuous :
